@@ -29,7 +29,9 @@ def _sctp(profile, rule, level="exploration", quick_s=40, thorough_s=600, probes
 
 
 RULE_SCTP = ("each evaluation is one simulated run: a generated program of create/send/close ops on two real "
-             "RTCSctpTransports over SimNet with a seeded fault schedule, then heal and liveness probes; a run is "
+             "RTCSctpTransports over SimNet with a seeded fault schedule (loss, duplication, reordering, jitter, bursts, "
+             "blackouts, in lifecycle runs also control chunks of one class held back for seconds; a tenth of the C01/C13 "
+             "runs are steered towards 'messages abandoned, channel closed, id re-used'), then heal and liveness probes; a run is "
              "non-trivial when >=1 fault fired and >=1 message was delivered; distinct = distinct event-log digests "
              "among non-trivial runs")
 
